@@ -89,17 +89,22 @@ inline std::vector<int> sorted(std::vector<int> v) { std::sort(v.begin(), v.end(
 // caches are legitimately stale, so nothing after that point is judged.  (Each script runs in its own forked child.)
 inline bool &history_in_contract() { static bool ok = true; return ok; }
 inline bool state_valid_for_c01(const Snap &s);
+inline bool degenerate_faces(const Snap &s) {
+    // a face listing a halfedge twice, or both halfedges of an edge (2-gons on one edge, faces through a loop edge): legal, but the
+    // brute-force oracles do not define multiplicities for them - such STATES are skipped, the history stays in contract
+    for (int f = 0; f < (int)s.F.size(); ++f) if (!s.fd[f]) { auto l = sorted(s.F[f]); if (std::adjacent_find(l.begin(), l.end()) != l.end()) return true;
+        for (int h : s.F[f]) if (std::find(s.F[f].begin(), s.F[f].end(), h ^ 1) != s.F[f].end()) return true; }
+    return false;
+}
 inline bool valid_for_c01(const Snap &s) {
     if (!history_in_contract()) return false;
     if (!state_valid_for_c01(s)) { history_in_contract() = false; return false; }
-    return true;
+    return !degenerate_faces(s);
 }
 inline bool state_valid_for_c01(const Snap &s) {
-    // the quantifier of C01: no halfface belongs to two live cells, no face lists a halfedge twice
+    // the quantifier of C01: no halfface belongs to two live cells
     std::map<int, int> owner;
     for (int c = 0; c < (int)s.C.size(); ++c) if (!s.cd[c]) for (int hf : s.C[c]) { if (owner.count(hf)) return false; owner[hf] = c; }
-    for (int f = 0; f < (int)s.F.size(); ++f) if (!s.fd[f]) { auto l = sorted(s.F[f]); if (std::adjacent_find(l.begin(), l.end()) != l.end()) return false;
-        for (int h : s.F[f]) if (std::find(s.F[f].begin(), s.F[f].end(), h ^ 1) != s.F[f].end()) return false; }
     // live entities reference live sub-entities
     for (int e = 0; e < (int)s.E.size(); ++e) if (!s.ed[e]) if (!s.live_v(s.E[e].first) || !s.live_v(s.E[e].second)) return false;
     for (int f = 0; f < (int)s.F.size(); ++f) if (!s.fd[f]) for (int h : s.F[f]) if (!s.live_e(h / 2)) return false;
